@@ -108,14 +108,15 @@ fn fresh_dir(tag: &str) -> PathBuf {
 
 /// Does the terminal listing show, date after date, the Hijri date and the seven entries of the library's
 /// result? Tolerant of layout: for each date a line containing the Hijri date text, then - in the
-/// result's order - one line per prayer containing its name and its time text (or "Invalid").
+/// result's order - one line per prayer containing its name and its time text (or "Invalid"). A civil date
+/// in the heading, if any, must be the date's own.
 fn listing_mismatch(stdout: &str, expected: &RangeResult) -> Option<String> {
     let lines: Vec<&str> = stdout.lines().collect();
-    let mut i = 0;
-    let mut next_with = |needles: &[String], what: String| -> Result<(), String> {
-        while i < lines.len() {
-            let l = lines[i];
-            i += 1;
+    let pos = std::cell::Cell::new(0usize);
+    let next_with = |needles: &[String], what: String| -> Result<(), String> {
+        while pos.get() < lines.len() {
+            let l = lines[pos.get()];
+            pos.set(pos.get() + 1);
             if needles.iter().all(|n| l.contains(n.as_str())) {
                 return Ok(());
             }
@@ -126,6 +127,26 @@ fn listing_mismatch(stdout: &str, expected: &RangeResult) -> Option<String> {
         let hijri = HijriDate::from(*d).to_string();
         if let Err(e) = next_with(&[hijri.clone()], format!("no line with the Hijri date '{}' for {}", hijri, d)) {
             return Some(e);
+        }
+        // whatever else the heading says about the date must be about THIS date: if it carries a civil
+        // date (numbers besides the Hijri text, English month names), the year and the day of the month
+        // must be those of the date and a month name must be the right one. No layout is demanded.
+        {
+            use chrono::Datelike;
+            let i = pos.get();
+            let head = lines[i - 1].replacen(hijri.as_str(), " ", 1);
+            let nums: Vec<i64> = head.split(|c: char| !c.is_ascii_digit()).filter(|t| !t.is_empty()).filter_map(|t| t.parse().ok()).collect();
+            const MONTHS: [&str; 12] = ["January", "February", "March", "April", "May", "June", "July", "August", "September", "October", "November", "December"];
+            let named: Vec<usize> = (0..12).filter(|k| head.contains(MONTHS[*k])).collect();
+            if nums.iter().any(|n| *n >= 100) && !nums.contains(&(d.year() as i64)) {
+                return Some(format!("the heading of {} shows another year: '{}'", d, lines[i - 1]));
+            }
+            if !nums.is_empty() && !nums.contains(&(d.day() as i64)) {
+                return Some(format!("the heading of {} shows another day of the month: '{}'", d, lines[i - 1]));
+            }
+            if !named.is_empty() && !named.contains(&(d.month0() as usize)) {
+                return Some(format!("the heading of {} names another month: '{}'", d, lines[i - 1]));
+            }
         }
         for (p, t) in m {
             let val = match t {
@@ -138,7 +159,7 @@ fn listing_mismatch(stdout: &str, expected: &RangeResult) -> Option<String> {
         }
     }
     // nothing but blank lines may follow (no entries for dates outside the range)
-    if lines[i..].iter().any(|l| SEQ7.iter().any(|p| l.contains(&format!("{}:", p)))) {
+    if lines[pos.get()..].iter().any(|l| SEQ7.iter().any(|p| l.contains(&format!("{}:", p)))) {
         return Some("entries after the last expected date".into());
     }
     None
@@ -401,7 +422,7 @@ pub fn explore(ctx: &Ctx) {
     let elevs: Vec<Option<f64>> = if quick { vec![None, Some(8848.0)] } else { vec![Some(-420.0), None, Some(8848.0)] };
     // incl. a quarter-hour zone (not a multiple of 0.1 h: survives the -p / -i round trip only if written exactly)
     let gmts: Vec<f64> = if quick { vec![-12.0, 5.75, 12.0] } else { vec![-12.0, -4.5, 5.75, 12.0] };
-    let ranges: Vec<(NaiveDate, i64)> = if quick { vec![(ymd(2024, 2, 28), 3), (ymd(2023, 12, 31), 1), (ymd(2023, 6, 1), 400), (ymd(2023, 6, 20), 3)] } else { vec![(ymd(2024, 2, 28), 3), (ymd(2023, 12, 31), 1), (ymd(2023, 12, 31), 2), (ymd(2023, 12, 15), 31), (ymd(2023, 6, 1), 400), (ymd(2024, 3, 5), 0)] };
+    let ranges: Vec<(NaiveDate, i64)> = if quick { vec![(ymd(2024, 2, 28), 3), (ymd(2023, 12, 31), 1), (ymd(2023, 6, 1), 400), (ymd(2023, 6, 20), 3), (ymd(2024, 12, 29), 5)] } else { vec![(ymd(2024, 2, 28), 3), (ymd(2023, 12, 31), 1), (ymd(2023, 12, 31), 2), (ymd(2023, 12, 15), 31), (ymd(2023, 6, 1), 400), (ymd(2024, 3, 5), 0), (ymd(2024, 12, 29), 5), (ymd(2020, 12, 30), 6)] };
     let mut methods: Vec<Option<String>> = METHOD_NAMES.iter().map(|m| Some(m.to_string())).collect();
     methods.push(None);
     let mut cfgs = vec![];
@@ -413,6 +434,10 @@ pub fn explore(ctx: &Ctx) {
                     for &g in &gmts {
                         for &(s, days) in &ranges {
                             if days > 31 && (lat.abs() > 58.3 || (quick && lat.abs() > 45.0)) {
+                                continue;
+                            }
+                            // the New-Year range (ISO-week year != calendar year) matters for the listing only: one site per method and zone
+                            if quick && s == ymd(2024, 12, 29) && !(lon == -77.2086 && e.is_none() && lat == 21.4233) {
                                 continue;
                             }
                             n += 1;
